@@ -14,6 +14,7 @@ Base == [script |-> {"system", "t_sample", "time_step"}, system |-> {"network", 
          graph |-> {"type", "nodes", "edges"}, node |-> {"volume", "environment"}, edge |-> {"nodes", "surface"},
          unitsys |-> {"space", "time", "quantity"}]
 AliasesOf(kind, name) == LET g == Keys[kind][GroupOf(kind, name)] IN {g[j] : j \in 1..Len(g)} \ {name}
+GroupSet(kind, g) == {Keys[kind][g][j] : j \in 1..Len(Keys[kind][g])}
 KeyCases ==
   UNION {
      {[class |-> "keys", kind |-> k, names |-> Base[k], note |-> "base"]}
@@ -22,6 +23,12 @@ KeyCases ==
      \cup UNION {{[class |-> "keys", kind |-> k, names |-> (Base[k] \ {n}) \cup {a}, note |-> "alias instead of canonical"] :
               a \in AliasesOf(k, n)} : n \in Base[k]}
      \cup {[class |-> "keys", kind |-> k, names |-> Base[k] \ {m}, note |-> "dropped key"] : m \in Base[k]}
+     \* every pair of names of one key, canonical or not, mandatory or optional (the base keeps its other keys)
+     \cup UNION {UNION {{[class |-> "keys", kind |-> k, names |-> (Base[k] \ GroupSet(k, g)) \cup {a, b}, note |-> "two names of one key"] :
+                  b \in GroupSet(k, g) \ {a}} : a \in GroupSet(k, g)} : g \in 1..Len(Keys[k])}
+     \* every single name of every key on top of the base (valid twins of the above)
+     \cup UNION {{[class |-> "keys", kind |-> k, names |-> (Base[k] \ GroupSet(k, g)) \cup {a}, note |-> "one name of the key"] :
+                  a \in GroupSet(k, g)} : g \in 1..Len(Keys[k])}
      : k \in Kinds}
 KeyValid(c) == Acceptable(c.kind, c.names)
 
